@@ -145,6 +145,19 @@ impl Peer {
         }
     }
 
+    /// The precondition can never become true any more (the step is skipped).
+    pub fn pre_dead(&self, pre: &Pre) -> bool {
+        match pre {
+            Pre::SawPubRec(pid, _) => self.rx.iter().any(|(_, p)| match p {
+                // the exchange ended without a successful PUBREC
+                Pkt::PubRec(a) => a.pid == *pid && a.code >= 0x80,
+                Pkt::PubAck(a) => a.pid == *pid,
+                _ => false,
+            }),
+            _ => false,
+        }
+    }
+
     pub fn next_step<'a>(&self, plan: &'a PeerPlan) -> Option<&'a PeerStep> {
         plan.script.get(self.script_pos)
     }
